@@ -527,6 +527,14 @@ fn run_real(wl: &Workload) -> RunResult {
 
 /// recovery of a crash image through the real rotator
 fn recover_ids(img: &[(String, Vec<u8>)], by_data: &HashMap<(Vec<u8>, u64), u64>, max: usize) -> Vec<String> {
+    recover_ids_checked(img, by_data, max).0
+}
+
+/// … plus the COMPOSED oracle of `Props/C09Compose.lean` (model-free): on every crash image
+/// `recover_entries_after(T)` must succeed (T = 0 and T = a stamp present in the image) and return, in
+/// order, exactly the deltas whose bincode bytes are the payloads `recover_all_entries` returned with a
+/// stamp >= T — and every one of them must be a delta that some `Write` message carried, bit-identical.
+fn recover_ids_checked(img: &[(String, Vec<u8>)], by_data: &HashMap<(Vec<u8>, u64), u64>, max: usize) -> (Vec<String>, Option<(&'static str, String)>) {
     let st = InMemoryWalStore::new();
     for (n, b) in img {
         let mut w = st.create(n).unwrap();
@@ -536,7 +544,35 @@ fn recover_ids(img: &[(String, Vec<u8>)], by_data: &HashMap<(Vec<u8>, u64), u64>
     }
     let rot = WalRotator::new(st, max).unwrap();
     let es: Vec<WalEntry> = rot.recover_all_entries().unwrap();
-    es.iter().map(|e| by_data.get(&(e.data.clone(), e.timestamp)).map(|i| i.to_string()).unwrap_or("?".into())).collect()
+    let mut complaint = None;
+    let mut thresholds = vec![0u64];
+    if let Some(e) = es.get(es.len() / 2) {
+        thresholds.push(e.timestamp);
+        thresholds.push(e.timestamp.saturating_add(1));
+    }
+    for t in thresholds {
+        let want: Vec<&WalEntry> = es.iter().filter(|e| e.timestamp >= t).collect();
+        match rot.recover_entries_after(t) {
+            Err(e) => {
+                complaint = Some(("C09:compose:recover-entries-after-fails-on-a-crash-image", format!("recover_entries_after({}) = Err({})", t, e)));
+            }
+            Ok(ds) => {
+                if ds.len() != want.len() {
+                    complaint = Some(("C09:compose:recover-entries-after-count", format!("recover_entries_after({}) returned {} deltas, recover_all_entries holds {} entries stamped >= it", t, ds.len(), want.len())));
+                } else {
+                    for (d, e) in ds.iter().zip(want.iter()) {
+                        let bytes = bincode::serialize(d).unwrap();
+                        if bytes != e.data {
+                            complaint = Some(("C09:compose:recovered-delta-not-bit-identical", format!("a delta returned by recover_entries_after({}) does not serialise to the payload of its entry (stamp {})", t, e.timestamp)));
+                        } else if !by_data.contains_key(&(bytes, e.timestamp)) {
+                            complaint = Some(("C09:compose:recovered-delta-never-written", format!("recover_entries_after({}) returned a delta (stamp {}) that no Write message carried", t, e.timestamp)));
+                        }
+                    }
+                }
+            }
+        }
+    }
+    (es.iter().map(|e| by_data.get(&(e.data.clone(), e.timestamp)).map(|i| i.to_string()).unwrap_or("?".into())).collect(), complaint)
 }
 
 fn op_line(wl: &Workload, bases: &[usize], spawn_failed: &[bool]) -> String {
@@ -587,7 +623,9 @@ fn run_workload(wl: &Workload, out: &mut Out, source: &str) {
     let mut acks = r.acks.clone();
     acks.sort();
     let acks_s: Vec<String> = acks.iter().map(|(i, a, _)| format!("{}={}", i, a)).collect();
-    let rec: Vec<Vec<String>> = r.images.iter().map(|img| recover_ids(img, &by_data, wl.max_size)).collect();
+    let recc: Vec<(Vec<String>, Option<(&'static str, String)>)> = r.images.iter().map(|img| recover_ids_checked(img, &by_data, wl.max_size)).collect();
+    let compose_complaint: Option<(usize, &'static str, String)> = recc.iter().enumerate().find_map(|(t, (_, c))| c.as_ref().map(|(s, m)| (t, *s, m.clone())));
+    let rec: Vec<Vec<String>> = recc.into_iter().map(|(v, _)| v).collect();
     let crash_s: Vec<String> = rec.iter().map(|v| v.join(" ")).collect();
     out.op(op_line(wl, &r.bases, &r.spawn_failed), format!("acks {} | trace {} | crash {}", acks_s.join(" "), r.trace.join(" "), crash_s.join(" ; ")));
 
@@ -678,6 +716,10 @@ fn run_workload(wl: &Workload, out: &mut Out, source: &str) {
         out.violation("C09:actor-panicked", "the WAL actor task panicked", json!({"workload": replay}));
     }
     check_synced_survives(wl, &r, &rec, out, &replay);
+    out.count_n("compose-oracle:crash-images-checked", rec.len() as u64);
+    if let Some((t, sig, msg)) = compose_complaint {
+        out.violation(sig, &format!("crash image at I/O index {}: {}", t, msg), json!({"workload": replay, "crash_index": t}));
+    }
     // ORACLE (Always): an Ok ack whose entry is missing from recovery of a crash image taken after the
     // caller saw the ack
     for (id, a, seen_at) in &acks {
